@@ -69,6 +69,10 @@ def run(R):
             pairs = sorted(pairs)
             msglens = None
         keys = vlib.prng_bytes(R.seed, "c01key/" + alg, mk)
+        # the empty message under a key (the key block is then the last block), through every construction path
+        for (o, k) in ((mo, mk), (mo, 1), (1, mk), (20, 16)):
+            for api in ("dyn", "const"):
+                add({"alg": alg, "api": api, "outlen": o, "key": keys[:k], "ctor": "marker" if (api == "const" and k == 1) else "ctx"}, [], (alg, o, k, 0, "keyed-empty", api))
         for (o, k) in pairs:
             for n in (msglens if msglens is not None else [R.rng.choice([0, 1, b - 1, b, b + 1, 2 * b, 2 * b + 1, 3 * b + 5])]):
                 msg = vlib.prng_bytes(R.seed, "c01/%s/%d/%d" % (alg, o, k), n)
